@@ -363,6 +363,14 @@ pub fn mutate(rng: &mut Rng, mut b: Vec<u8>) -> Vec<u8> {
             return b;
         }
     }
+    // a junk token (a run of one byte value, length around the small source constants) where a
+    // token is expected, half of the time as the only change
+    if rng.chance(1, 8) {
+        crate::gen_cnf::insert_junk(rng, &mut b);
+        if rng.chance(1, 2) {
+            return b;
+        }
+    }
     for _ in 0..rng.range(1, 3) {
         let len = b.len();
         match rng.below(9) {
@@ -539,12 +547,26 @@ pub fn gen_case(rng: &mut Rng, opt: &str, thorough: bool) -> String {
                 }
             };
             let mut b = r.bytes.clone();
-            b.splice(off..off + n, repl.clone());
-            case.data = b;
-            // a lone zero is a legal value in some positions (extension widths, slice indices):
-            // no claim about an error on the token then, the other oracles still apply
-            let maybe_legal = repl == b"0" || repl == b"00";
-            case.tok = if maybe_legal { None } else { Some((l, c, repl.len())) };
+            if rng.chance(1, 5) {
+                // the token replaced by a junk run, or a junk run glued to its front: the error
+                // is on the junk (no claim where the run reads as blanks, as digits, as a constant's
+                // digits / sign, or opens a comment)
+                let run = crate::gen_cnf::junk_run(rng);
+                let glued = rng.chance(1, 3);
+                let jb = run[0];
+                let no_claim = matches!(jb, b' ' | b'\n' | b';') || jb.is_ascii_digit() || (!is_num && (jb.is_ascii_hexdigit() || jb == b'-'));
+                let span = if glued { run.len() + n } else { run.len() };
+                if glued { b.splice(off..off, run); } else { b.splice(off..off + n, run); }
+                case.data = b;
+                case.tok = if no_claim { None } else { Some((l, c, span)) };
+            } else {
+                b.splice(off..off + n, repl.clone());
+                case.data = b;
+                // a lone zero is a legal value in some positions (extension widths, slice indices):
+                // no claim about an error on the token then, the other oracles still apply
+                let maybe_legal = repl == b"0" || repl == b"00";
+                case.tok = if maybe_legal { None } else { Some((l, c, repl.len())) };
+            }
         }
         "fault" => {
             let doc = gen_doc(rng);
